@@ -219,7 +219,18 @@ def discharge(site, facts=None):
             ps = peel(start, through_try=False) if start is not None else None
             if known_ge(body, bb, lenc, end) and (ps is None or (ps.k == "const" and ps.v == 0) or known_ge(body, bb, end, start)):
                 return "drained range ends at a value rounded down from this container's len()"
+            if facts is not None and (ps is None or (ps.k == "const" and ps.v == 0)) and known_ge_at_callers(facts, body, lenc, end):
+                return "drained range bounded by this container's len() at every call site of this helper"
         return None
+    if k.startswith("unwrap:Result") and site.operands:
+        p0 = peel(site.operands[0], through_try=False)
+        if p0.k == "call" and (p0.q or "") in ("std::fmt::Write::write_fmt", "std::fmt::Write::write_str", "std::fmt::Write::write_char"):
+            rq = p0.rq or ""
+            aty = ""
+            if getattr(p0, "bb", None) is not None:
+                aty = ((body.term(p0.bb).get("argtys") or [""])[0]) or ""
+            if "std::string::String" in rq or aty.replace("&mut ", "").strip() == "std::string::String":
+                return "formatting into a String cannot fail (its fmt::Write impl is infallible)"
     if k == "divzero":
         (a,) = site.operands
         if known_nonzero(body, bb, a):
@@ -262,6 +273,14 @@ def discharge(site, facts=None):
         ec, ei = site.operands
         pi = peel(ei, through_try=False)
         lenc = E("call", q="len", args=[ec])
+        # Read contract: `n = reader.read(&mut buf)` => n <= buf.len(); so buf[..n] is in range
+        if pi.k == "agg" and pi.adt == "std::ops::RangeTo" and pi.args:
+            nb = peel(pi.args[0])
+            if nb is not None and nb.k == "call" and nb.q == "std::io::Read::read" and len(nb.args or []) >= 2:
+                from ..common import _container_root
+                r1, r2 = _container_root(nb.args[1]), _container_root(ec)
+                if r1 is not None and r1 == r2:
+                    return "bound is the count returned by read() into this very buffer (Read contract: n <= buf.len())"
         if pi.k == "agg" and pi.adt in ("std::ops::Range", "std::ops::RangeTo", "std::ops::RangeFrom", "std::ops::RangeInclusive"):
             start = end = None
             if pi.adt == "std::ops::Range":
